@@ -109,6 +109,27 @@ func checkC17(r *Result) {
 		r.broken("proposal handler anchors do not resolve")
 		return
 	}
+	// the two setters find the sender's slot through the operator -> EVM address map, which the registration step writes:
+	// a validator that registers and signs in the same extension is stored only if registration (when there is anything
+	// to register) comes before both setters
+	{
+		isSetter := func(c *CallSite) bool {
+			return strings.HasSuffix(c.Callee, ".SetBridgeValsetSignature") || strings.HasSuffix(c.Callee, ".SetOracleAttestation")
+		}
+		po := AnalyzePaths(pre, []Atom{{Name: "setterCalled", Event: P.CallEvent(isSetter, T)}})
+		n, m := 0, 0
+		for _, cs := range P.CallSitesIn(pre) {
+			if isSetter(cs) {
+				m++
+			}
+			if cs.Callee == "(*app.ProposalHandler).SetEVMAddresses" {
+				n++
+				bad := po.Require(cs.Instr, func(v map[string]bool) bool { return !v["setterCalled"] })
+				r.check(len(bad) == 0, "PRE-ROLES", "(*app.ProposalHandler).PreBlocker # EVM addresses are registered before the setters look the sender up", P.Pos(cs.Pos()), fmt.Sprintf("valuations: %v", bad))
+			}
+		}
+		r.check(n == 1 && m == 2, "PRE-ROLES", "(*app.ProposalHandler).PreBlocker # one registration call, two setter call sites", P.Pos(pre.Pos()), fmt.Sprintf("%d / %d", n, m))
+	}
 	for _, f := range []*ssa.Function{pre, proc, prep} {
 		r.fn(FuncName(f))
 	}
